@@ -29,6 +29,10 @@ def check(run, prog, tier):
         "with sibling comparison, accumulate-not-overwrite rule for every component builder, API "
         "existence on the builders' call closure. Not decided: numerical reorganisation energies.")
     run.trusted_base = ["DFunction._add_me adds to existing data and creates them when empty"]
+    run.rule("C09-G", "the matrix of bath functions and the functions themselves answer queries from their current content (no temperature, transform or spectral density kept across a later store or addition)", minimum=3)
+    from . import memorule
+    memorule.check(run, prog, "C09-G", ['quantarhei.qm.corfunctions.cfmatrix.CorrelationFunctionMatrix', 'quantarhei.qm.corfunctions.correlationfunctions.CorrelationFunction', 'quantarhei.qm.corfunctions.spectraldensities.SpectralDensity'],
+                   "a component at another temperature stored later is then not refused, or sums no longer equal the sum of components")
     run.rule("C09-A", "per-component dispatch depends on the current component (no leaked loop variables)", minimum=8)
     run.rule("C09-B", "additivity bookkeeping of add_to_data/add_to_data2/__add__", minimum=14)
     run.rule("C09-C", "component builders accumulate and register their temperature", minimum=12)
@@ -45,6 +49,8 @@ def check(run, prog, tier):
 
 
 # ----------------------------------------------------------------------
+
+
 def _bound_in(node):
     out = set()
     for n in ast.walk(node):
